@@ -1,0 +1,8 @@
+//go:build verif
+
+package ratelimiter
+
+// VerifCleanup runs one pass of the bucket janitor synchronously (build tag "verif").
+func (rl *TokenBucketRateLimiter) VerifCleanup() {
+	rl.cleanup()
+}
